@@ -30,8 +30,11 @@ from harness.gen import c04_file as F4
 
 RULE = ("case = one generated VCF (1-3 contigs, 0-4 samples, up to 14*scale records; ploidy 1-5 per call, '.', "
         "partially missing, phased/unphased/mixed separators, records without GT, FORMAT fields DP GQ AD FT PS PQ HP in "
-        "random order, dropped trailing fields, multi-ALT/indel/symbolic ALT) run through `whatshap unphase` twice, or one "
-        "phase->unphase->unphase history on a simulated scenario; non-trivial iff the file given to unphase has >= 1 data "
+        "random order, dropped trailing fields, multi-ALT/indel/symbolic ALT; header with 0-3 ##phasing lines anywhere, "
+        "##PHASING, INFO fields named PS/HP, definitions of unused phase tags left out; given as path, on stdin or bgzipped) "
+        "run through `whatshap unphase` twice, or one phase->unphase->phase->unphase history on a simulated scenario, or a file "
+        "and a random phase-only edit of it (alleles of complete genotypes permuted, separators, HP/PQ/PS and ##phasing added / "
+        "changed / deleted; every ploidy) both unphased; non-trivial iff the file given to unphase has >= 1 data "
         "line and >= 1 phased genotype or HP/PQ/PS value; distinct = distinct input text")
 MANIFEST = dict(
     text="Lean 4 theorems about a model of run_unphase's record loop written with Python primitives that raise where "
@@ -41,7 +44,11 @@ MANIFEST = dict(
          "Tied to the working tree by running the real CLI on generated VCFs and comparing field by field with the model, "
          "plus a text-level oracle of the property on every (input, output) pair and phase/unphase/unphase histories; "
          "unphase_header is modelled (only phase lines/definitions go, idempotent with a single phasing line; F61 witness), "
-         "and the edit of C04's writer model is proved to be a phase-only edit (unphase after whatshap phase = unphase)",
+         "and the edit of C04's writer model is proved to be a phase-only edit (unphase after whatshap phase = unphase); "
+         "round E12: exact extent of F61 (idempotent iff <= 1 ##phasing line), kept header lines unchanged as a list, every FORMAT "
+         "definition an output record needs survives, file-level idempotence, an executable checker deciding the phase-only-edit "
+         "relation (certifies the edits the check applies to real files of every ploidy) and invariance along any history of "
+         "phase / unphase steps",
     design_ref="DESIGN.md §5 C13",
     note="trusted: Lean kernel, axioms ⊆ {propext, Classical.choice, Quot.sound}; hand-written model; htslib/pysam parsing "
          "and serialisation are outside the model (the harness reads input and output as plain text); well-formed = GT first "
@@ -180,6 +187,11 @@ def c04_records(samples, recs):
     return out
 
 
+def rng_tag(case):
+    """the tag of the second `whatshap phase` of a history: the other one than in the first run"""
+    return "HP" if case["tag"] == "PS" else "PS"
+
+
 def scenario_case(rng):
     """a small phasing scenario, fully serialised (so replay does not need the PRNG)"""
     samples = ("S1",) if rng.random() < 0.6 else ("S1", "S2")
@@ -269,6 +281,16 @@ def _run(ctx, rng, wd):
             res["inputs"] = [("original", vcf, text)]
             if rc == 0:
                 res["inputs"].append(("phased", phased, open(phased).read()))
+                # a longer history: phase -> unphase -> phase again (-> unphase below)
+                rcu, outu, erru = unphase(phased)
+                if rcu == 0:
+                    back, rephased = os.path.join(d, "back.vcf"), os.path.join(d, "rephased.vcf")
+                    open(back, "w").write(outu)
+                    rc2, _, err2, _ = sim.whatshap(["phase", "--reference", fa, "-o", rephased, "--tag", rng_tag(case), back, bam], ctx.overlay)
+                    if rc2 == 0:
+                        res["inputs"].append(("rephased", rephased, open(rephased).read()))
+                    else:
+                        res["rephase_err"] = err2[-300:]
         # unphase every input, then unphase the output again
         res["runs"] = []
         for label, p, text in res["inputs"]:
@@ -450,8 +472,18 @@ def _run(ctx, rng, wd):
                 if keep(ra["out"]) != keep(rb["out"]):
                     ctx.fail("[edit] the unphased headers of original and edited file differ beyond ##phasing lines", case,
                              key="unphase-edit-header-differs")
-        if kind == "history" and len(res["runs"]) == 2 and all(r["rc"] == 0 for r in res["runs"]):
-            a, b = (data_lines(r["out"]) for r in res["runs"])
+        if kind == "history" and res.get("rephase_err"):
+            ctx.observe("second whatshap phase of a history failed: " + res["rephase_err"][-100:])
+        if kind == "history" and len(res["runs"]) == 3 and all(r["rc"] == 0 for r in res["runs"]):
+            a, c3 = data_lines(res["runs"][0]["out"]), data_lines(res["runs"][2]["out"])
+            ctx.dist("history_length", "phase-unphase-phase-unphase")
+            if a != c3:
+                first = next((i for i, (x, y) in enumerate(zip(a, c3)) if x != y), None)
+                ctx.fail(f"[history] unphase(phase(unphase(phase(v)))) differs from unphase(v) at data line {first}: "
+                         f"{(a[first] if first is not None else len(a))!r} vs {(c3[first] if first is not None else len(c3))!r}",
+                         case, key="unphase-history-neq-unphase")
+        if kind == "history" and len(res["runs"]) >= 2 and all(r["rc"] == 0 for r in res["runs"][:2]):
+            a, b = (data_lines(r["out"]) for r in res["runs"][:2])
             phased_text = res["runs"][1]["in_text"]
             ctx.dist("history_phased_calls", min(sum(l.count("|") for l in data_lines(phased_text)), 20) // 4 * 4)
             if a != b:
